@@ -42,7 +42,10 @@ def oracle_grid(name, sol, tspan, hmax, terminal_possible, fails, case):
             fails.append((case, f"{name}: returned times are not a prefix of the requested nodes"))
     if hmax is not None and len(tspan) == 2 and len(T) > 1:
         d = np.diff(T)
-        if d.max() > hmax * (1 + 1e-12):
+        # the step taken is fl(t + h) - t: it may differ from h by the rounding of t + h (half a spacing of the times)
+        slack = 2 * np.spacing(np.abs(T[1:]) + np.abs(T[:-1]))
+        if np.any(d > hmax * (1 + 1e-12) + slack):
+            d = np.where(d > hmax * (1 + 1e-12) + slack, d, 0.0)
             fails.append((case, f"{name}: a step of {d.max()!r} (step #{int(np.argmax(d))}) exceeds the requested maximum step {hmax!r}"))
 
 
@@ -153,7 +156,7 @@ def run(rep, tier, seed):
                 for r in O15._verif_trace:
                     if not (1 <= r["k"] <= 5):
                         fails.append((case, f"ode15s: order {r['k']} outside 1..5"))
-                    if r["dt"] > r["hmax"] * (1 + 1e-12):
+                    if r["dt"] > r["hmax"] * (1 + 1e-12) + 2 * np.spacing(abs(r["t"]) + abs(r["tnew"])):
                         fails.append((case, f"ode15s: accepted step {r['dt']!r} exceeds hmax {r['hmax']!r}"))
             except Exception as ex:  # noqa
                 rep.notes.append(f"ode15s raised {type(ex).__name__} on {pname}: {str(ex)[:80]}")
